@@ -240,6 +240,16 @@ Proof.
   - rewrite nth_set_nth_other by congruence. reflexivity.
 Qed.
 
+(* two successive x[a][b] = v; x[c][d] = w *)
+Lemma dset_spec N (M : list (list T)) a b v c d w : mat N M -> a < N -> b < N -> c < N -> d < N ->
+  mat N (set2 (set2 M a b v) c d w) /\
+  forall p q, nth q (nth p (set2 (set2 M a b v) c d w) []) zero =
+    if Nat.eqb p c && Nat.eqb q d then w else if Nat.eqb p a && Nat.eqb q b then v else nth q (nth p M []) zero.
+Proof.
+  intros MM Ha Hb Hc Hd. split; [now apply set2_mat, set2_mat|]. intros p q.
+  rewrite (nth2_set2 N) by (try apply set2_mat; assumption). rewrite (nth2_set2 N) by assumption. reflexivity.
+Qed.
+
 Lemma for_seq_inv {S} (P : nat -> S -> Prop) (f : nat -> S -> S) : forall n a s,
   P a s -> (forall i s, a <= i < a + n -> P i s -> P (Datatypes.S i) (f i s)) -> P (a + n) (for_ (seq a n) f s).
 Proof.
@@ -459,6 +469,17 @@ Proof.
     cmp p mp; cmp q mp; subst; bfin.
 Qed.
 
+Lemma inf_loop_swapped N (D : list (list T)) mp (inf : T) : mat N D -> mp < N ->
+  for_ (seq 0 N) (fun i D => set2 (set2 D mp i inf) i mp inf) D
+  = for_ (seq 0 N) (fun i D => set2 (set2 D i mp inf) mp i inf) D.
+Proof.
+  intros MD Hmp. apply (for_ext_inv (mat N)); [exact MD|]. intros i D' Hi MD'. apply in_seq in Hi.
+  destruct (dset_spec N D' mp i inf i mp inf MD') as [M1 H1]; try lia.
+  destruct (dset_spec N D' i mp inf mp i inf MD') as [M2 H2]; try lia.
+  split; [|exact M2]. apply (mat_ext N _ _ zero M1 M2). intros p q Hp Hq. rewrite H1, H2.
+  cmp p i; cmp q i; cmp p mp; cmp q mp; subst; try (exfalso; lia); bfin.
+Qed.
+
 Lemma bubble_noop mp size : forall r a j, size - 1 <= j -> bubble mp size a r j = a :: r.
 Proof.
   induction r as [|b r IH]; intros a j H; [reflexivity|]. cbn [bubble].
@@ -526,9 +547,15 @@ Proof.
 Qed.
 
 Lemma inf_loop_F N (D : list (list T)) mp (inf : T) (F : nat -> list (list T) -> list (list T)) :
-  (forall i D, F i D = set2 (set2 D i mp inf) mp i inf) -> mat N D -> mp < N ->
+  ((forall i D, F i D = set2 (set2 D i mp inf) mp i inf) \/ (forall i D, F i D = set2 (set2 D mp i inf) i mp inf)) ->
+  mat N D -> mp < N ->
   for_ (seq 0 N) F D = tab N (fun i => tab N (fun x => if Nat.eqb i mp || Nat.eqb x mp then inf else nth x (nth i D []) zero)).
-Proof. intros HF M H. rewrite (for_ext _ F (fun i D => set2 (set2 D i mp inf) mp i inf)) by (intros; apply HF). now apply inf_loop. Qed.
+Proof.
+  intros [HF|HF] M H.
+  - rewrite (for_ext _ F (fun i D => set2 (set2 D i mp inf) mp i inf)) by (intros; apply HF). now apply inf_loop.
+  - rewrite (for_ext _ F (fun i D => set2 (set2 D mp i inf) i mp inf)) by (intros; apply HF).
+    rewrite inf_loop_swapped by assumption. now apply inf_loop.
+Qed.
 
 Lemma for_pair_split' {A S1 S2} (xs : list A) (F : A -> S1 * S2 -> S1 * S2) (f : A -> S1 -> S1) (g : A -> S2 -> S2) s1 s2 :
   (forall x a b, F x (a, b) = (f x a, g x b)) -> for_ xs F (s1, s2) = (for_ xs f s1, for_ xs g s2).
@@ -644,7 +671,7 @@ Proof.
         match goal with |- context [for_ (seq 0 N) ?F2 (D, SI)] => rewrite (for_pair_split' (seq 0 N) F2 f g D SI) end;
           [|intros x a b; unfold f, g; reflexivity];
         unfold f, g; clear f g; cbv beta iota;
-        rewrite (inf_loop_F N D mp (n_inf Op)); [|intros; reflexivity|exact MD|exact Hmp];
+        rewrite (inf_loop_F N D mp (n_inf Op)); [|first [left; intros; reflexivity|right; intros; reflexivity]|exact MD|exact Hmp];
         rewrite (bubble_rows N mp sz SI); [|exact MS|exact Hs|];
         [ f_equal; f_equal; lia
         | intros i SI' Hi LS'; apply (row_lift i (bub_step mp)); [|rewrite LS'; exact Hi];
